@@ -40,6 +40,7 @@ func fnDiscard(ctx *cmdContext, args map[string]any) (output respValue, err erro
 	// clear out watch map and discard multi command queue
 	ctx.cs.clearWatches()
 	ctx.cs.cmdQueue = nil
+	ctx.cs.queueError = false
 	output.data = rstrOK
 	return
 }
@@ -71,6 +72,15 @@ func isAbortedExecUnlocked(cs *clientState) bool {
 func fnExec(ctx *cmdContext, args map[string]any) (output respValue, err error) {
 	if ctx.cs.cmdQueue == nil {
 		output.data = respErrorString("ERR EXEC without MULTI")
+		return
+	}
+
+	if ctx.cs.queueError {
+		// a command was rejected while queueing: nothing runs, back to normal mode
+		ctx.cs.clearWatches()
+		ctx.cs.cmdQueue = nil
+		ctx.cs.queueError = false
+		output.data = respErrorString("EXECABORT Transaction discarded because of previous errors.")
 		return
 	}
 
